@@ -102,8 +102,9 @@ type Tuple []Val
 
 // Fn is a function value (possibly a closure or bound method).
 type Fn struct {
-	F   *ssa.Function
-	Env []Val
+	F      *ssa.Function
+	Env    []Val
+	Native func(args []Val) Val // engine-implemented function value (e.g. reflectlite.Swapper's result)
 }
 
 type MapIter struct {
